@@ -210,6 +210,7 @@ pub enum TestElement {
     Trace(Trace),
 }
 
+#[derive(Clone)]
 pub struct Assertion {
     pub expr: Located<Expression>,
     pub snapshot: SymbolSnapshot,
